@@ -8,6 +8,7 @@ import (
 
 	"github.com/goatcms/goatcore/filesystem"
 	"github.com/goatcms/goatcore/filesystem/filespace/memfs"
+	"simrt"
 )
 
 // C01 — in-memory filespace = abstract tree on every history (single task, fault-free).
@@ -20,6 +21,8 @@ import (
 type fsHistIn struct {
 	Ops []FsOp `json:"ops"`
 }
+
+var debugOps = os.Getenv("SIM_DEBUG") != ""
 
 var poolNames = []string{"a", "b", "c"}
 
@@ -72,20 +75,29 @@ func poolPath(r *Rand, maxDepth int) []string {
 var fsOpKinds = []string{"WriteFile", "WriteFile", "WriteFile", "Writer", "MkdirAll", "MkdirAll", "Remove", "RemoveAll", "Copy", "CopyFile", "CopyDirectory",
 	"ReadFile", "Reader", "ReadDir", "IsExist", "IsFile", "IsDir", "Lstat", "Filespace"}
 
-func genFsOps(r *Rand, n int, extra []string, plainSpelling bool) []FsOp {
+// genFsOps draws n operations. A generator-side copy of the model (gm, may be nil = empty
+// tree) is kept in step so that most operations are valid where they are issued (existing
+// sources, absent destinations, removable nodes): histories then build real state instead of
+// bouncing off preconditions; about one in six operations is left completely random.
+func genFsOps(r *Rand, n int, extra []string, plainSpelling bool, gm *ModelTree) []FsOp {
 	var ops []FsOp
-	views := 1
+	if gm == nil {
+		gm = NewModelTree()
+	} else {
+		gm = gm.Clone()
+	}
+	prefixes := [][]string{nil}
 	kinds := append(append([]string{}, fsOpKinds...), extra...)
-	for i := 0; i < n; i++ {
-		op := FsOp{Kind: kinds[r.Intn(len(kinds))]}
-		if views > 1 && r.Chance(1, 3) {
-			op.View = r.Intn(views)
+	sp := func(segs []string) string {
+		if plainSpelling {
+			return strings.Join(segs, "/")
 		}
-		sp := func(segs []string) string {
-			if plainSpelling {
-				return strings.Join(segs, "/")
-			}
-			return spell(r, segs)
+		return spell(r, segs)
+	}
+	draw := func(i int) FsOp {
+		op := FsOp{Kind: kinds[r.Intn(len(kinds))]}
+		if len(prefixes) > 1 && r.Chance(1, 3) {
+			op.View = r.Intn(len(prefixes))
 		}
 		op.Path = sp(poolPath(r, 3))
 		switch op.Kind {
@@ -105,15 +117,52 @@ func genFsOps(r *Rand, n int, extra []string, plainSpelling bool) []FsOp {
 			}
 		case "Copy", "CopyFile", "CopyDirectory":
 			op.Path2 = sp(poolPath(r, 3))
+			// a directory copied into itself is outside every statement (and through the
+			// stream copy helpers it recurses until the 2-minute lifecycle deadline): not generated
+			s1, _ := normPath(op.Path)
+			s2, _ := normPath(op.Path2)
+			if hasPrefix(s2, s1) {
+				op = FsOp{Kind: "IsExist", Path: op.Path, View: op.View}
+			}
 		case "Filespace":
-			if views >= 4 {
+			if len(prefixes) >= 4 {
 				op.Kind = "ReadDir"
-			} else {
-				views++
 			}
 		case "MutateWritten", "MutateRead":
 			op.Ref = r.Intn(1 + i)
 			op.Path = ""
+		}
+		return op
+	}
+	for i := 0; i < n; i++ {
+		var op FsOp
+		var exp Expect
+		guided := r.Chance(5, 6)
+		for try := 0; try < 6; try++ {
+			op = draw(i)
+			if op.Kind == "MutateWritten" || op.Kind == "MutateRead" || op.Kind == "Filespace" {
+				break
+			}
+			exp = gm.Expectation(prefixes[op.View], op)
+			if !guided || exp.Outcome == MustOK {
+				break
+			}
+		}
+		switch op.Kind {
+		case "MutateWritten", "MutateRead":
+		case "Filespace":
+			if rel, climbs := normPath(op.Path); !climbs {
+				prefixes = append(prefixes, append(append([]string{}, prefixes[op.View]...), rel...))
+			} else {
+				op.Kind = "ReadDir"
+			}
+		default:
+			if exp.Outcome == "" {
+				exp = gm.Expectation(prefixes[op.View], op)
+			}
+			if exp.Outcome == MustOK && exp.apply != nil {
+				exp.apply()
+			}
 		}
 		ops = append(ops, op)
 	}
@@ -128,7 +177,7 @@ func c01Gen(r *Rand, tier string) interface{} {
 	if tier == "thorough" && r.Chance(1, 10) {
 		n = 40 + r.Intn(160)
 	}
-	return &fsHistIn{Ops: genFsOps(r, n, []string{"MutateWritten", "MutateRead"}, false)}
+	return &fsHistIn{Ops: genFsOps(r, n, []string{"MutateWritten", "MutateRead"}, false, nil)}
 }
 
 // fsView is one view of the implementation with its model prefix.
@@ -148,6 +197,12 @@ type histChecker struct {
 	listings []lsnap  // listings handed out by ReadDir
 	env      *Env
 	cut      bool
+	classify func(clause string, op FsOp, msg string) string // names recognised causes (known findings)
+	// lenientMutations: the statement only speaks about the answers of read-type operations
+	// (cache properties). A mutation's own outcome is not judged: refused -> model unchanged,
+	// accepted although the model has no direct application for it -> the history is cut.
+	lenientMutations bool
+	ignoreReads      bool // read-type operations are executed but not judged (C06 judges the remote only)
 }
 
 type snap struct {
@@ -160,6 +215,11 @@ type lsnap struct {
 }
 
 func (h *histChecker) fail(clause, key, msg string, i int, op FsOp) *Failure {
+	if h.classify != nil {
+		if c := h.classify(clause, op, msg); c != "" {
+			key = c
+		}
+	}
 	return failf(h.prop+"/"+clause, key, "op %d %s: %s", i, op, msg)
 }
 
@@ -217,6 +277,9 @@ func (h *histChecker) step(i int, op FsOp) *Failure {
 		r.Err = func() (err error) {
 			defer func() {
 				if p := recover(); p != nil {
+					if simrt.IsAbort(p) {
+						panic(p)
+					}
 					r.Panic = fmt.Sprint(p)
 				}
 			}()
@@ -227,6 +290,34 @@ func (h *histChecker) step(i int, op FsOp) *Failure {
 		}
 	} else {
 		r = RunFsOp(v.fs, op)
+	}
+	if debugOps {
+		fmt.Printf("DEBUG op %d %s -> err=%v panic=%q expect=%s(%s)\n", i, op, r.Err, r.Panic, exp.Outcome, exp.Why)
+	}
+	if h.lenientMutations && isMutation(op.Kind) && r.Panic == "" {
+		switch {
+		case r.Err != nil:
+			if exp.Outcome == MustOK {
+				h.env.Count("probe.mutation-refused-though-valid-on-the-model")
+			}
+			if op.Kind == "Copy" || op.Kind == "CopyDirectory" {
+				// a tree copy that failed half-way is not atomic and no statement says it is:
+				// the state is unknown from here on
+				h.cut = true
+				h.env.Count("probe.history-cut:failed tree copy (partial result)")
+			}
+			return nil
+		case exp.Outcome == MustFail:
+			h.cut = true
+			h.env.Count("probe.history-cut:accepted an operation that has no direct application:" + op.Kind)
+			return nil
+		}
+	}
+	if h.ignoreReads && !isMutation(op.Kind) {
+		if r.Panic != "" {
+			return h.fail("panic", op.Kind, r.Panic, i, op)
+		}
+		return nil
 	}
 	clause, msg := Judge(exp, op, r)
 	if clause != "" {
@@ -292,7 +383,7 @@ func (h *histChecker) compareState(i int, op FsOp, r *Rand) *Failure {
 			exp := h.model.Expectation(v.prefix, qop)
 			res := RunFsOp(v.fs, qop)
 			if c, m := Judge(exp, qop, res); c != "" {
-				return failf(h.prop+"/"+c, "query:"+kind, "after op %d %s: %s", i, op, m)
+				return h.fail(c, "query:"+kind, "then "+m, i, op)
 			}
 		}
 	}
